@@ -402,3 +402,51 @@ Definition connected_prev (h : hub) (dp : dep) (since : Z) (x m : N) : Prop :=
                 exists y, hop_rel (cut_hub h (d_ds dp) since) [d_ds dp; j_ds j] (h_clock h) j x y
                           /\ path h (h_clock h) (j_ds j) js' y m
   end%Z.
+(** what the declared joins of [dp] require for a change of dependency entity [x]: main entity [m] is live and
+    connected to [x] now, or through a first outgoing hop of the previous-run state ([since] = the position the
+    job had reached in [dp]'s dataset) *)
+Definition required (c : cfg) (h : hub) (dp : dep) (since : Z) (x m : N) : Prop :=
+  (connected_now h dp x m \/ connected_prev h dp since x m) /\ main_live h (c_main c) m = true.
+
+(** ** Traces *)
+Fixpoint replay (evs : list ev) (h : hub) (job : option tokens) : hub * option tokens :=
+  match evs with
+  | [] => (h, job)
+  | EvAppend k vs :: evs' => replay evs' (append_hub h k vs) job
+  | EvCall _ (Some t) :: evs' => replay evs' h (Some t)
+  | EvCall _ None :: evs' => replay evs' h job
+  end.
+Fixpoint ents_of (evs : list ev) : list N :=
+  match evs with
+  | [] => []
+  | EvCall es _ :: evs' => es ++ ents_of evs'
+  | _ :: evs' => ents_of evs'
+  end.
+Fixpoint no_append (evs : list ev) : Prop :=
+  match evs with
+  | [] => True
+  | EvAppend _ _ :: _ => False
+  | _ :: evs' => no_append evs'
+  end.
+
+(** The change at position [p] of [dp]'s dataset has been handled: at some moment of the history at which the
+    change existed ([tr1] = the history up to that moment, [h1] the hub, [tk1] the persisted job token = the
+    "previous run"), the job handed to the sink, before any further write ([tr2]),
+    - every main entity the declared joins require for it (graph as it stands at that moment; first outgoing hop
+      also as the dependency dataset stood at the persisted position, which is not past [p]), or
+    - every live main entity (a full sync). *)
+Definition covered (c : cfg) (n : nat) (tr : list ev) (dp : dep) (p : Z) : Prop :=
+  exists tr1 tr2 tr3 h1 job1 x,
+    tr = tr1 ++ tr2 ++ tr3 /\ replay tr1 (s_hub (init_state n)) None = (h1, job1) /\ no_append tr2 /\
+    nthz (feed_of h1 (d_ds dp)) p = Some x /\
+    ((exists tk1, job1 = Some tk1 /\ (dtok tk1 (d_ds dp) <= p)%Z /\
+                  forall m, required c h1 dp (dtok tk1 (d_ds dp)) (v_id x) m -> In m (ents_of tr2))
+     \/ (forall m, main_live h1 (c_main c) m = true -> In m (ents_of tr2))).
+
+(** the job has caught up with every dependency dataset *)
+Definition caught_up (c : cfg) (s : state) : Prop :=
+  exists tk, s_job s = Some tk /\
+             forall dp, In dp (c_deps c) -> dtok tk (d_ds dp) = lenz (feed_of (s_hub s) (d_ds dp)).
+
+Definition batch_ok (o : op) : Prop := match o with ORun _ b _ _ => (1 <= b)%nat | _ => True end.
+Definition sound (v : variant) : Prop := f_shared v = SharedSnapshot /\ f_prev v = PrevFeed /\ f_wm v = WmOwn.
